@@ -283,6 +283,9 @@ class Gen:
             segs.append(["pad", head])
             st = self.stmt(structured, ids[i], shapes)
             segs.append(st)
+            if layout_p and rng.random() < layout_p / 2 and st[2].startswith("    "):
+                # the statement sits far out on a very long line (generated tables, minified code): columns beyond 2^16
+                st[2] = "    let _t = [" + "0, " * rng.choice([7000, 22000, 30000]) + "0]; " + st[2][4:]
             if layout_p and rng.random() < layout_p and "\n" not in st[2].rstrip("\n"):
                 # a second statement on the same line (it has no ID yet)
                 st[2] = st[2].rstrip("\n") + " "
@@ -290,6 +293,10 @@ class Gen:
                 st2[2] = st2[2].lstrip(" ")
                 segs.append(st2)
             segs.append(["pad", "}\n"])
+        if structured and nstmts == 0 and rng.random() < 0.3:
+            # a file whose only log statements carry an unusable reference (nothing to count, nothing to edit)
+            segs.append(["pad", "fn only_unusable(request_id: u32) {\n    info!(ref = request_id; \"unusable only\");\n"
+                                "    warn!(ref = \"abc\"; \"unusable too\");\n}\n"])
         segs.append(["pad", make_pad(rng, total // (nstmts + 1), unicode_p)])
         if layout_p and rng.random() < layout_p / 2:
             # the file starts with a log statement at byte 0
@@ -703,6 +710,15 @@ def dev_apply(wm, edit, root=None):
             except OSError:
                 pass
         return "deleted file %s" % p
+    elif kind == "touch_cfg":
+        # the configuration file is saved again (a comment edited, a fresh checkout): same content, newer than the lock
+        if root:
+            full = os.path.join(root, "proj", wm.get("cfg_name", "Breadlog.yaml"))
+            try:
+                os.utime(full, None, follow_symlinks=True)
+            except OSError:
+                return None
+        return "touched the configuration file"
     elif kind == "move_stmt":
         cands = [(p, i) for p in sorted(files) for i, s in enumerate(files[p]) if s[0] == "stmt"]
         ps = sorted(files)
